@@ -13,8 +13,11 @@ PROPS["C15"] = dict(
                "drawn independently of the earlier rounds (ROUTE-REFRESH for all families at once or one family at a time, soft out / in / both, one peer or "
                "all); half of the later rounds take the previous round's change back (relax <-> tighten the same set / assignment / policy), so that routes "
                "first advertised by one kind of trigger must be withdrawn by another; after EVERY round all views are compared with a fresh daemon that had "
-               "that round's program from the start. Exploration: (P1, P2.., routes, triggers, schedule) are sampled; quick 480 pairs + 160 histories "
-               "(480 rounds), thorough 30x.",
+               "that round's program from the start. One case in nine is such a history on a VRF TOPOLOGY: 1-3 CE neighbours configured in VRFs red/blue "
+               "(IPv4 sessions) next to 1-2 PE neighbours (VPNv4 sessions) whose routes use the same IP prefixes under several route distinguishers, "
+               "importable into a VRF by route target or not (for one prefix at most one RD per VRF, gobgp has no per-VRF best path); triggers are "
+               "ROUTE-REFRESH from a CE (IPv4) or PE (VPNv4) and soft out/in/both; the VRF tables are compared as well. Exploration: (P1, P2.., routes, "
+               "triggers, schedule) are sampled; quick 480 pairs + 160 histories + 80 VRF histories (~710 rounds), thorough 30x.",
     level_note="Run B (gobgp itself under P2 from the start) is the reference: that a fresh evaluation applies the policy correctly is C10, that the "
                "Loc-RIB picks the right best path is C03. Route timestamps are made irrelevant: all routes of a run arrive at one virtual instant and the "
                "generated routes are totally ordered by the decision process (unique first AS per source, import prepend only of the left-most AS unless "
@@ -33,12 +36,14 @@ PROPS["C15"] = dict(
          "defset-add, defset-del, defset-replace, policy-add-stmt, policy-del-stmt} x {import, export, both}; non-trivial iff gobgp's own states under "
          "P1 and under P2 on the same inputs differ on >=1 route; distinct by (changed-verdict pattern set, reset kind, change kind(s), racing); a history round is non-trivial iff the state before the "
          "round and the fresh daemon under the round's program differ on >=1 route, distinct by (pattern set, trigger, previous trigger, change kinds). "
-         "Violation keys of round k>=2 carry ':after-<previous trigger>'",
+         "Violation keys of round k>=2 carry ':after-<previous trigger>', those of VRF topologies ':vrf'",
     assumptions=["'the current policy' is what the management API reports after the change (AddDefinedSet with replace = the set now has the new members; "
                  "AddPolicyAssignment appends; AddPolicy on an existing policy appends statements; DeletePolicy/DeleteDefinedSet without 'all' remove the named members)",
                  "a repeated reset may re-send routes, but only as they are already held by the peer (no withdraw of a held route, no changed attributes, no new route)",
                  "DeletePolicyAssignment(all), deleting sets/policies/statements entirely, ADD-PATH sessions, VRF/VPN families and locally originated routes are not generated"],
     must_count=["nontrivial_pairs", "pairs_equal", "repeat_checks", "racing_cases", "routes_compared",
+                "vrf_histories", "vrf_rounds_equal", "vrf_nontrivial_rounds", "vrf_round_reset_route-refresh_all", "vrf_round_reset_route-refresh_one",
+                "vrf_round_reset_soft-out_all", "vrf_round_reset_soft-out_one", "vrf_round_reset_soft-in_all", "vrf_round_reset_soft-both_all",
                 "histories", "rounds_equal", "nontrivial_rounds", "rounds_taking_previous_change_back", "rounds_refresh_per_family",
                 "round_soft-out_after_route-refresh", "round_route-refresh_after_route-refresh", "round_route-refresh_after_soft-out",
                 "round_soft-both_after_route-refresh", "round_soft-in_after_soft-out", "round_soft-out_after_soft-in",
